@@ -107,6 +107,8 @@ func (x *Exec) upgradeBegin(run func()) {
 	x.pendingUpgrade = ""
 }
 
+var probesEmitted bool
+
 func genUpgradeHistory(r *RNG, nBlocks int) []string {
 	var inner []string
 	switch r.Intn(3) {
@@ -118,6 +120,13 @@ func genUpgradeHistory(r *RNG, nBlocks int) []string {
 		inner = genDidHistory(r.Fork(), nBlocks)
 	}
 	name := app.Upgrades[len(app.Upgrades)-1].UpgradeName
+	// once per run: this binary started at the height of each descriptor on the disk left by the previous ones
+	if !probesEmitted {
+		probesEmitted = true
+		for k := range app.Upgrades {
+			inner = append([]string{fmt.Sprintf("UPROBE %d", k)}, inner...)
+		}
+	}
 	// the block in which the plan is scheduled
 	nb := 0
 	for _, l := range inner {
